@@ -8,9 +8,9 @@
 From Cicada Require Import Base.Chars Model.Vars Model.VarsSpec Proofs.VarsProofs.
 Local Open Scope N_scope.
 
-(** [fx] says which of the proposed repairs (notes/C09-fix-3..5.patch) the code contains; the
-    tree as it is contains none of them.  The theorems hold for every setting. *)
-Definition fx_tree : fixes := mkfx false false false.
+(** [fx] says whether the code contains the proposed repair of read (notes/C09-fix-6.patch); the
+    tree as it is does not.  The theorems hold for both settings. *)
+Definition fx_tree : fixes := mkfx false.
 
 (** The abstraction function relates every state whose environment has no duplicate names. *)
 Theorem C09_abs : forall c, NoDup (map fst (envp c)) -> R c (abs c).
@@ -44,13 +44,21 @@ Theorem C09_pwd : forall fx w c ops,
   let c' := fst (run_hist fx w c (map render ops)) in expand_lookup c' s_PWD = Some (cwd c').
 Proof. exact pwd_follows_cwd. Qed.
 
-(** With the three proposed repairs the full statement holds (from every state in which an
-    exported IFS has no shell-local IFS behind it, e.g. a fresh shell). *)
+(** With the proposed repair of read the full statement holds, with the POSIX reading of the
+    fields (runs of blanks separate under the default IFS, the last name gets the rest of the line
+    verbatim), from every state in which an exported IFS has no shell-local IFS behind it, e.g. a
+    fresh shell. *)
 Theorem C09_full_after_repairs : forall w c ops,
   NoDup (map fst (envp c)) -> (aget (envp c) s_IFS <> None -> aget (locals c) s_IFS = None) ->
   forallb wf_op ops = true ->
   Forall2 obs_ok (snd (spec_hist fx_all w (abs c) ops)) (snd (run_hist fx_all w c (map render ops))).
 Proof. exact full_after_repairs. Qed.
+
+(** "the remainder in the last": in the POSIX reading the last name receives a contiguous piece
+    of the input line (nothing rebuilt), for every IFS and every number of names. *)
+Theorem C09_read_remainder_verbatim : forall dflt seps k x,
+  exists p q, x = p ++ last (cut_runs dflt seps k (Some x)) [] ++ q.
+Proof. exact cut_runs_last_infix. Qed.
 
 Check C09_step : forall fx w c a o, R c a -> wf_op o = true -> known fx a o = None ->
   R (fst (step fx w c (render o))) (fst (spec_step fx w a o)) /\
@@ -67,24 +75,6 @@ Definition c_root : st := mkst [] [] [c_slash] [].
 Definition nA : str := [65]. Definition nB : str := [66].
 Definition hp : str := [47; 104; 112].
 
-(** IFS=':'; export IFS=','; read A B <<< 'x:y,z'; $A  -- read still splits at the colon *)
-Definition ops_ifs : list op :=
-  [Assign [mkasg s_IFS [58] QSq]; Export [mkasg s_IFS [44] QSq];
-   Read [] [nA; nB] [120; 58; 121; 44; 122]; Ref nA].
-Theorem C09_refuted_ifs_shadowed :
-  forallb wf_op ops_ifs = true /\
-  ~ Forall2 obs_ok (snd (spec_hist fx_tree w_none (abs c_root) ops_ifs)) (snd (run_hist fx_tree w_none c_root (map render ops_ifs))).
-Proof.
-  split; [reflexivity|]. intro H.
-  pose proof (Forall2_nth_ok _ _ _ H 3%nat (SStatus true) OPanic ltac:(vm_compute; auto)) as H1.
-  vm_compute in H1. discriminate.
-Qed.
-
-Theorem C09_refuted : ~ C09_full.
-Proof.
-  intro H. apply (proj2 C09_refuted_ifs_shadowed). apply (H w_none c_root ops_ifs (NoDup_nil _) eq_refl).
-Qed.
-
 (** IFS=':' read A B <<< 'x:y:z'; $B  -- B is rebuilt with a blank *)
 Definition ops_rejoin : list op :=
   [Read [mkasg s_IFS [58] QSq] [nA; nB] [120; 58; 121; 58; 122]; Ref nB].
@@ -97,13 +87,18 @@ Proof.
   vm_compute in H1. discriminate.
 Qed.
 
-(** cd with HOME not in the environment: specified to fail, the shell reports success *)
-Definition ops_cd_nohome : list op := [Cd None].
-Theorem C09_refuted_cd_home_not_exported :
-  forallb wf_op ops_cd_nohome = true /\
-  snd (run_hist fx_tree w_all c_root (map render ops_cd_nohome)) = [OStatus true] /\
-  snd (spec_hist fx_tree w_all (abs c_root) ops_cd_nohome) = [SStatus false].
-Proof. vm_compute. repeat split. Qed.
+Theorem C09_refuted : ~ C09_full.
+Proof.
+  intro H. apply (proj2 C09_refuted_read_rejoined). apply (H w_none c_root ops_rejoin (NoDup_nil _) eq_refl).
+Qed.
+
+(** The same history after the repair: B is y:z; and blanks: read A B <<< 'x  y   z ' gives A=x, B=y   z *)
+Definition ops_blanks : list op := [Read [] [nA; nB] [120; 32; 32; 121; 32; 32; 32; 122; 32]; Ref nA; Ref nB].
+Example C09_read_repaired :
+  snd (run_hist fx_all w_none c_root (map render ops_rejoin)) = [OStatus true; OVal (Some [121; 58; 122])] /\
+  snd (run_hist fx_all w_none c_root (map render ops_blanks)) =
+    [OStatus true; OVal (Some [120]); OVal (Some [121; 32; 32; 32; 122])].
+Proof. vm_compute. split; reflexivity. Qed.
 
 (** Non-vacuity: a history through every kind of operation that meets the hypotheses of
     C09_partial and C09_pwd, with the observations it produces.
@@ -134,7 +129,6 @@ Print Assumptions C09_step.
 Print Assumptions C09_partial.
 Print Assumptions C09_pwd.
 Print Assumptions C09_full_after_repairs.
+Print Assumptions C09_read_remainder_verbatim.
 Print Assumptions C09_refuted.
-Print Assumptions C09_refuted_ifs_shadowed.
 Print Assumptions C09_refuted_read_rejoined.
-Print Assumptions C09_refuted_cd_home_not_exported.
